@@ -39,6 +39,21 @@ for _src, _alt in (("func f() { try { return 7 } catch q { throw q } }; r = \"E\
     EXPECT.append({"src": _src, "field": "result", "want": "s:45" if _src.startswith(("func", "r = \"none")) else "[s:45]", "want_any": [_alt],
                    "why": "throw of the catch variable raises an error, whatever the try body was left by"})
 
+# an interruption is an exit by error: the deferred calls of every invocation being left still run once, LIFO
+# ("#cancel=K": the harness cancels the context at the K-th poll, well inside the endless loop)
+EXPECT += [
+    {"src": "#cancel=9\nfunc f() { defer probe(\"d1\"); defer probe(\"d2\"); for { } }; f()", "field": "trace", "want": "(s:6432);(s:6431)",
+     "why": "deferred calls of a function left by a cancellation run, in reverse order"},
+    {"src": "#cancel=9\ndefer probe(\"t1\"); defer probe(\"t2\"); for { }", "field": "trace", "want": "(s:7432);(s:7431)",
+     "why": "top-level deferred calls run when the script is left by a cancellation"},
+    {"src": "#cancel=25\nfunc g() { defer probe(\"g\"); for { } }; func f() { defer probe(\"f\"); try { for i in [1, 2] { defer probe(i) }; g() } catch e { probe(\"caught\") } }; f()",
+     "field": "trace", "want": "(s:67);(i:2);(i:1);(s:66)", "why": "every invocation left by a cancellation runs its own deferred calls; the interruption is not caught"},
+    {"src": "#cancel=12\nfunc f() { defer func() { probe(\"s\") }(); defer probe(\"h\"); for { } }; f()", "field": "trace", "want": "(s:68)",
+     "why": "after a cancellation a deferred Go call still runs; a deferred script function is itself interrupted"},
+    {"src": "#cancel=9\nfunc f() { defer probe(\"d1\"); for { } }; f()", "field": "msg", "want": "execution interrupted",
+     "why": "deferred calls do not replace the interruption"},
+]
+
 # a deferred Go function that panics is one failing deferred call: the defers registered before it still run, and an error of the body wins
 EXPECT += [
     {"src": "func f() { defer probe(1); defer hpanic(2); probe(0) }\ntry { f() } catch e { probe(9) }", "field": "trace", "want": "(i:0);(i:1);(i:9)",
